@@ -29,14 +29,14 @@ type TaskSpec struct {
 }
 
 type Scenario struct {
-	Tasks   []TaskSpec     `json:"tasks"`
-	LateDone bool          `json:"late_done,omitempty"` // Done() is first called by a waiter task, at a scheduler-chosen time
-	Preload []int          `json:"preload"` // callback modules imported before the run
-	Policy  string         `json:"policy"`  // random | pct | quantum | serial
-	PNum    int            `json:"pnum"`
-	Depth   int            `json:"depth"`
-	SSeed   uint64         `json:"sseed"`
-	Order   simrt.MapOrder `json:"order"`
+	Tasks    []TaskSpec     `json:"tasks"`
+	LateDone bool           `json:"late_done,omitempty"` // Done() is first called by a waiter task, at a scheduler-chosen time
+	Preload  []int          `json:"preload"`             // callback modules imported before the run
+	Policy   string         `json:"policy"`              // random | pct | quantum | serial
+	PNum     int            `json:"pnum"`
+	Depth    int            `json:"depth"`
+	SSeed    uint64         `json:"sseed"`
+	Order    simrt.MapOrder `json:"order"`
 }
 
 const nCB = 3
